@@ -351,18 +351,27 @@ Definition tlvf (fv: field * option Z) : bytes :=
 Lemma r_chunks_seq cfg a : r_chunks cfg false a = map tlvf (filter keepf (combine cfg a)).
 Proof. reflexivity. Qed.
 
-(* what the encoder does with one instantiated component agrees with the prototype's view of it *)
-Lemma enc_elt fk t c0 v : v = slot_val fk (Some c0) -> (forall d, fk = FDef d -> c0 <> CSchema) ->
+(* what the encoder reads: a required component is instantiated (value or placeholder), an OPTIONAL or
+   DEFAULT one comes back as a value or as nothing *)
+Definition enc_ok (fc: field * slot) : Prop :=
+  match snd fc with
+  | Some CSchema => fst (fst fc) = FReq
+  | None => fst (fst fc) <> FReq
+  | Some (CVal _) => True
+  end.
+
+(* what the encoder does with one component it read agrees with the prototype's view of it *)
+Lemma enc_elt fk t c v : v = slot_val fk c -> enc_ok ((fk, t), c) ->
   (fk = FReq -> is_some v = true) ->
-  enc_keep fk (Some c0) = r_keep fk v /\
-  (r_keep fk v = true -> enc_slot t (Some c0) = Ok (tlvf ((fk, t), v))).
+  enc_keep fk c = r_keep fk v /\
+  (r_keep fk v = true -> enc_slot t c = Ok (tlvf ((fk, t), v))).
 Proof.
-  intros -> Hd Hr. destruct c0 as [z|]; cbn [slot_val].
+  intros -> Hok Hr. unfold enc_ok in Hok. cbn [fst snd] in Hok. destruct c as [[z|]|]; cbn [slot_val].
   - split; [destruct fk; reflexivity|]. intros _. reflexivity.
-  - destruct fk; cbn [default_of] in *.
-    + specialize (Hr eq_refl). discriminate.
+  - subst fk. specialize (Hr eq_refl). discriminate.
+  - destruct fk; cbn [default_of enc_keep r_keep]; try congruence.
     + split; [reflexivity|discriminate].
-    + exfalso. exact (Hd d eq_refl eq_refl).
+    + rewrite Z.eqb_refl. split; [reflexivity|discriminate].
 Qed.
 
 Lemma isvalue_at cfg a k : length a = length cfg -> r_isvalue cfg a = true -> k < length cfg ->
@@ -376,8 +385,8 @@ Qed.
 
 Lemma seq_chunks_S {St} (get: St -> Z -> bool -> res (St * slot)) s from fk t r acc :
   seq_chunks get s from ((fk, t) :: r) acc =
-  match get s (Z.of_nat from) true with
-  | Err e => (s, Err (to_index e))
+  match enc_read get s from fk with
+  | Err e => (s, Err e)
   | Ok (s', c) =>
       if enc_keep fk c then
         match enc_slot t c with
@@ -387,6 +396,41 @@ Lemma seq_chunks_S {St} (get: St -> Z -> bool -> res (St * slot)) s from fk t r 
       else seq_chunks get s' (S from) r acc
   end.
 Proof. reflexivity. Qed.
+
+Lemma enc_collect_S {St} (get: St -> Z -> bool -> res (St * slot)) s from fk t r acc :
+  enc_collect get s from ((fk, t) :: r) acc =
+  match enc_read get s from fk with
+  | Err e => (s, Err e)
+  | Ok (s', c) => enc_collect get s' (S from) r (c :: acc)
+  end.
+Proof. reflexivity. Qed.
+
+(* one read of the encoder: the content is untouched and what comes back abstracts to the content *)
+Lemma enc_read_core cfg s k t : rinv cfg s -> k < length cfg ->
+  exists s1 c, enc_read (rec_get cfg) s k (kind_of cfg k) = Ok (s1, c) /\ rinv cfg s1 /\
+               rabs cfg s1 = rabs cfg s /\ nth k (rabs cfg s) None = slot_val (kind_of cfg k) c /\
+               enc_ok ((kind_of cfg k, t), c).
+Proof.
+  intros Hinv Hk.
+  assert (Hi: pyidx (Z.of_nat k) (length cfg) = Some k)
+    by (rewrite pyidx_nat; destruct (Nat.ltb_spec k (length cfg)); [reflexivity|lia]).
+  assert (Hno: exists c, rec_get cfg s (Z.of_nat k) false = Ok (s, c) /\
+                         nth k (rabs cfg s) None = slot_val (kind_of cfg k) c /\
+                         (kind_of cfg k <> FReq -> enc_ok ((kind_of cfg k, t), c))).
+  { unfold rec_get, gen_get. rewrite (rslot_at_shaped cfg s _ k (rinv_shaped _ _ Hinv) Hi).
+    eexists. split; [reflexivity|]. rewrite nth_rabs by auto.
+    destruct (nth k (rslots s) None) as [[z|]|]; cbn [is_value slot_val]; split; auto; intros H;
+      unfold enc_ok; cbn [fst snd]; first [exact I|exact H]. }
+  unfold enc_read. destruct (kind_of cfg k) eqn:Ek.
+  - destruct (get_inst_core cfg s (Z.of_nat k) k Hinv Hi) as (s1 & c0 & Eg & Hinv1 & Ha1 & Hval & Hd & _).
+    rewrite Eg. exists s1, (Some c0). rewrite Ek in Hval.
+    split; [reflexivity|]. split; [exact Hinv1|]. split; [exact Ha1|]. split; [exact Hval|].
+    unfold enc_ok. cbn [fst snd]. destruct c0; auto.
+  - destruct Hno as (c & Eg & Hv & Hok). rewrite Eg. exists s, c.
+    split; [reflexivity|]. split; [exact Hinv|]. split; [reflexivity|]. split; [exact Hv|]. apply Hok. discriminate.
+  - destruct Hno as (c & Eg & Hv & Hok). rewrite Eg. exists s, c.
+    split; [reflexivity|]. split; [exact Hinv|]. split; [reflexivity|]. split; [exact Hv|]. apply Hok. discriminate.
+Qed.
 
 Lemma seq_chunks_core cfg a : r_isvalue cfg a = true -> forall fs from acc s,
   fs = skipn from cfg -> rinv cfg s -> rabs cfg s = a ->
@@ -401,12 +445,12 @@ Proof.
     rewrite (skipn_cons_nth cfg from (FReq, tag_integer) Hk) in Hfs. inversion Hfs as [[Hf Hr]].
     assert (Hfk: kind_of cfg from = fk) by (unfold kind_of; rewrite <- Hf; reflexivity).
     assert (Hla: length a = length cfg) by (rewrite <- Ha; apply rabs_length).
-    destruct (get_inst_core cfg s (Z.of_nat from) from Hinv) as (s1 & c0 & Eg & Hinv1 & Ha1 & Hval & Hd & _).
-    { rewrite pyidx_nat. destruct (Nat.ltb_spec from (length cfg)); [reflexivity|lia]. }
+    destruct (enc_read_core cfg s from t Hinv Hk) as (s1 & c & Eg & Hinv1 & Ha1 & Hval & Hok).
+    rewrite Hfk in Eg, Hval, Hok.
     rewrite seq_chunks_S, Eg. cbv beta iota.
     rewrite (skipn_cons_nth a from None) by lia. cbn [combine filter].
-    rewrite Ha, Hfk in Hval.
-    destruct (enc_elt fk t c0 (nth from a None) Hval ltac:(intros d E; apply (Hd d); congruence)) as [Hkeep Henc].
+    rewrite Ha in Hval.
+    destruct (enc_elt fk t c (nth from a None) Hval Hok) as [Hkeep Henc].
     { intros E. apply (isvalue_at cfg a from); auto. congruence. }
     unfold keepf at 1. cbn [fst snd]. rewrite Hkeep.
     destruct (IH (S from) (if r_keep fk (nth from a None) then tlvf (fk, t, nth from a None) :: acc else acc) s1 Hr Hinv1 ltac:(congruence))
@@ -414,6 +458,34 @@ Proof.
     destruct (r_keep fk (nth from a None)) eqn:Ek.
     + rewrite (Henc eq_refl). exists s'. rewrite <- Hr. rewrite E. cbn [rev map]. rewrite <- app_assoc. auto.
     + exists s'. rewrite <- Hr. rewrite E. auto.
+Qed.
+
+Lemma enc_collect_core cfg : forall fs from acc s, fs = skipn from cfg -> rinv cfg s ->
+  exists s' l, enc_collect (rec_get cfg) s from fs acc = (s', Ok (rev acc ++ l)) /\
+               rinv cfg s' /\ rabs cfg s' = rabs cfg s /\ length l = length fs /\
+               Forall enc_ok (combine fs l) /\ map sv (combine fs l) = skipn from (rabs cfg s).
+Proof.
+  induction fs as [|[fk t] r IH]; intros from acc s Hfs Hinv.
+  - exists s, []. cbn [enc_collect combine map length]. rewrite app_nil_r.
+    assert (length cfg <= from).
+    { pose proof (skipn_length from cfg) as E. rewrite <- Hfs in E. cbn [length] in E. lia. }
+    rewrite skipn_all2 by (rewrite rabs_length; lia).
+    split; [reflexivity|]. split; [exact Hinv|]. split; [reflexivity|]. split; [reflexivity|]. split; [constructor|reflexivity].
+  - assert (Hk: from < length cfg).
+    { destruct (Nat.lt_ge_cases from (length cfg)); auto. rewrite skipn_all2 in Hfs by lia. discriminate. }
+    rewrite (skipn_cons_nth cfg from (FReq, tag_integer) Hk) in Hfs. injection Hfs as Hf Hr. assert (Hr': r = skipn (S from) cfg) by exact Hr.
+    assert (Hfk: kind_of cfg from = fk) by (unfold kind_of; rewrite <- Hf; reflexivity).
+    destruct (enc_read_core cfg s from t Hinv Hk) as (s1 & c & Eg & Hinv1 & Ha1 & Hval & Hok).
+    rewrite Hfk in Eg, Hval, Hok.
+    rewrite enc_collect_S, Eg. cbv beta iota.
+    destruct (IH (S from) (c :: acc) s1 Hr' Hinv1) as (s' & l & E & Hinv' & Ha' & Hl & Hoks & Hsv).
+    exists s', (c :: l).
+    split; [etransitivity; [exact E|]; cbn [rev]; rewrite <- app_assoc; reflexivity|].
+    split; [exact Hinv'|]. split; [congruence|]. split; [cbn [length]; rewrite Hl; reflexivity|].
+    rewrite (skipn_cons_nth (rabs cfg s) from None) by (rewrite rabs_length; lia).
+    cbn [combine map]. split.
+    + constructor; [exact Hok|exact Hoks].
+    + f_equal; [unfold sv; cbn [fst snd]; symmetry; exact Hval|]. rewrite Hsv, Ha1. reflexivity.
 Qed.
 
 (* SET: collect, sort by tag, encode *)
@@ -478,7 +550,7 @@ Proof.
   cbn [combine map]. f_equal. apply IH. lia.
 Qed.
 
-Lemma set_chunks_abs cfg vals a : length vals = length cfg -> Forall elt_ok (combine cfg vals) ->
+Lemma set_chunks_abs cfg vals a : length vals = length cfg -> Forall enc_ok (combine cfg vals) ->
   map sv (combine cfg vals) = a -> r_isvalue cfg a = true ->
   set_chunks cfg vals = Ok (r_chunks cfg true a).
 Proof.
@@ -488,11 +560,11 @@ Proof.
   (* every collected element is instantiated, and required ones hold a value *)
   assert (Helt: forall x, In x (combine cfg vals) ->
             keepf (hmap x) = keepE x /\ (keepE x = true -> enc_slot (snd (fst x)) (snd x) = Ok (tlvf (hmap x)))).
-  { intros [[fk t] c] Hin. rewrite Forall_forall in Hok. destruct (Hok _ Hin) as (c0 & Ec & Hd). cbn [fst snd] in *. subst c.
-    assert (Hreq: fk = FReq -> is_some (slot_val fk (Some c0)) = true).
+  { intros [[fk t] c] Hin. rewrite Forall_forall in Hok. pose proof (Hok _ Hin) as Hc.
+    assert (Hreq: fk = FReq -> is_some (slot_val fk c) = true).
     { intros ->. rewrite r_isvalue_combine in Hv by auto. rewrite Hcomb in Hv. rewrite forallb_forall in Hv.
-      specialize (Hv (hmap ((FReq, t), Some c0)) (in_map hmap _ _ Hin)). exact Hv. }
-    destruct (enc_elt fk t c0 _ eq_refl Hd Hreq) as [H1 H2].
+      specialize (Hv (hmap ((FReq, t), c)) (in_map hmap _ _ Hin)). exact Hv. }
+    destruct (enc_elt fk t c _ eq_refl Hc Hreq) as [H1 H2].
     unfold keepf, keepE, hmap, sv. cbn [fst snd]. split; [symmetry; exact H1|].
     intros Hk. apply H2. rewrite <- H1. exact Hk. }
   unfold set_chunks, r_chunks. rewrite Hcomb.
@@ -727,7 +799,8 @@ Proof.
     cbn [out_abs]. rewrite (isvalue_abs cfg s Hreq Hinv). auto.
   - (* REncode *)
     destruct isset.
-    + destruct (values_abs cfg s Hinv) as (s' & l & E & Hi & Ha & Hl & Hm & Hok & Hsv). rewrite E. cbn [fst snd].
+    + destruct (enc_collect_core cfg cfg 0 [] s eq_refl Hinv) as (s' & l & E & Hi & Ha & Hl & Hok & Hsv).
+      cbn [rev app skipn] in *. rewrite E. cbn [fst snd].
       rewrite (set_chunks_abs cfg l (rabs cfg s) Hl Hok Hsv Hwf).
       split; [exact Hi|]. split; [exact Ha|]. unfold r_der. destruct (tlv tag_set true (concat (r_chunks cfg true (rabs cfg s)))); reflexivity.
     + destruct (seq_chunks_core cfg (rabs cfg s) Hwf cfg 0 [] s eq_refl Hinv eq_refl) as (s' & E & Hi & Ha).
@@ -811,19 +884,42 @@ Proof.
   destruct H as [H1 H2]. destruct (IH (S from) (c :: acc) s' H1) as [H3 H4]. split; [exact H3|congruence].
 Qed.
 
+Lemma enc_read_any cfg s k fk : rinv cfg s ->
+  match enc_read (rec_get cfg) s k fk with
+  | Ok (s', _) => rinv cfg s' /\ rabs cfg s' = rabs cfg s
+  | Err _ => True
+  end.
+Proof.
+  intros Hinv. unfold enc_read. destruct fk.
+  - pose proof (rec_get_any cfg s (Z.of_nat k) true Hinv) as H.
+    destruct (rec_get cfg s (Z.of_nat k) true) as [[s' c]|e]; auto.
+  - apply rec_get_any; auto.
+  - apply rec_get_any; auto.
+Qed.
+
 Lemma seq_chunks_any cfg : forall fs from acc s, rinv cfg s ->
   rinv cfg (fst (seq_chunks (rec_get cfg) s from fs acc)) /\
   rabs cfg (fst (seq_chunks (rec_get cfg) s from fs acc)) = rabs cfg s.
 Proof.
   induction fs as [|[fk t] r IH]; intros from acc s Hinv; [cbn [seq_chunks fst]; auto|].
-  rewrite seq_chunks_S. pose proof (rec_get_any cfg s (Z.of_nat from) true Hinv) as H.
-  destruct (rec_get cfg s (Z.of_nat from) true) as [[s' c]|e]; [|cbn [fst]; auto].
+  rewrite seq_chunks_S. pose proof (enc_read_any cfg s from fk Hinv) as H.
+  destruct (enc_read (rec_get cfg) s from fk) as [[s' c]|e]; [|cbn [fst]; auto].
   destruct H as [H1 H2].
   destruct (enc_keep fk c).
   - destruct (enc_slot t c) as [b|e].
     + destruct (IH (S from) (b :: acc) s' H1) as [H3 H4]. split; [exact H3|congruence].
     + cbn [fst]. auto.
   - destruct (IH (S from) acc s' H1) as [H3 H4]. split; [exact H3|congruence].
+Qed.
+
+Lemma enc_collect_any cfg : forall fs from acc s, rinv cfg s ->
+  rinv cfg (fst (enc_collect (rec_get cfg) s from fs acc)) /\
+  rabs cfg (fst (enc_collect (rec_get cfg) s from fs acc)) = rabs cfg s.
+Proof.
+  induction fs as [|[fk t] r IH]; intros from acc s Hinv; [cbn [enc_collect fst]; auto|].
+  rewrite enc_collect_S. pose proof (enc_read_any cfg s from fk Hinv) as H.
+  destruct (enc_read (rec_get cfg) s from fk) as [[s' c]|e]; [|cbn [fst]; auto].
+  destruct H as [H1 H2]. destruct (IH (S from) (c :: acc) s' H1) as [H3 H4]. split; [exact H3|congruence].
 Qed.
 
 Theorem rec_reads_inert cfg isset s o : rinv cfg s -> rec_reader o = true ->
@@ -843,8 +939,8 @@ Proof.
   - destruct s; auto.
   - destruct s; auto.
   - destruct isset.
-    + pose proof (gen_values_any cfg (length cfg) 0 [] s Hinv) as H.
-      destruct (gen_values (rec_get cfg) s 0 (length cfg) []) as [s' [l|e]]; exact H.
+    + pose proof (enc_collect_any cfg cfg 0 [] s Hinv) as H.
+      destruct (enc_collect (rec_get cfg) s 0 cfg []) as [s' [l|e]]; exact H.
     + pose proof (seq_chunks_any cfg cfg 0 [] s Hinv) as H.
       destruct (seq_chunks (rec_get cfg) s 0 cfg []) as [s' [l|e]]; exact H.
 Qed.
